@@ -93,6 +93,8 @@ type loopWorld struct {
 	obs       *CObs
 	cfgHash   string
 	err       error
+	co        *coordinator.Coordinator
+	cfg       *prom.ConfigInfo
 }
 
 func (w *loopWorld) timeNow() time.Time {
@@ -297,11 +299,16 @@ func (w *loopWorld) cycle(faults []WFault, scaleFail bool) CObs {
 	if w.c.Opt.IdleOn {
 		opt.MaxIdleTime = time.Duration(w.c.MaxIdle)*time.Hour + 30*time.Minute
 	}
-	active := w.activeMap()
-	co := coordinator.NewCoordinator(opt, &coordRep{ms: []shard.Manager{w}},
-		func() *prom.ConfigInfo { return cfg }, w.explore,
-		func() map[uint64]*discovery.SDTargets { return active },
-		prometheus.NewRegistry(), quietLog())
+	// one long-lived Coordinator per world, as in a deployment: state it keeps from cycle to cycle
+	// (there is none on the pinned tree) takes part in the history
+	w.cfg = cfg
+	if w.co == nil {
+		w.co = coordinator.NewCoordinator(opt, &coordRep{ms: []shard.Manager{w}},
+			func() *prom.ConfigInfo { return w.cfg }, w.explore,
+			func() map[uint64]*discovery.SDTargets { return w.activeMap() },
+			prometheus.NewRegistry(), quietLog())
+	}
+	co := w.co
 	func() {
 		defer func() {
 			if r := recover(); r != nil {
